@@ -458,16 +458,22 @@ impl Property for C16 {
                     }
                     let cands: Vec<SolvableId> = w.cands(w.vs_name(*x)).iter().map(|s| SolvableId(*s)).collect();
                     let m = futures::FutureExt::now_or_never(prov.filter_candidates(&cands, id, false)).expect("snapshot provider yields");
-                    let got: Vec<u32> = m.iter().map(|s| s.0).collect();
-                    if got != w.matching(*x) {
+                    let mut got: Vec<u32> = m.iter().map(|s| s.0).collect();
+                    got.sort();
+                    let mut want = w.matching(*x);
+                    want.sort();
+                    if got != want {
                         return Err(("captured-shadowed:matches".into(), format!("version set {x} matches {got:?} in the snapshot provider, {:?} live", w.matching(*x))));
                     }
                 }
                 for (i, id) in added_ids.iter().enumerate() {
                     let cands: Vec<SolvableId> = w.cands(spec.adds[i].0).iter().map(|s| SolvableId(*s)).collect();
                     let m = futures::FutureExt::now_or_never(prov.filter_candidates(&cands, VersionSetId(*id), false)).expect("snapshot provider yields");
-                    let got: Vec<u32> = m.iter().map(|s| s.0).collect();
-                    if got != wx.matching(added_ref_ids[i]) || prov.version_set_name(VersionSetId(*id)).0 != spec.adds[i].0 {
+                    let mut got: Vec<u32> = m.iter().map(|s| s.0).collect();
+                    got.sort();
+                    let mut want = wx.matching(added_ref_ids[i]);
+                    want.sort();
+                    if got != want || prov.version_set_name(VersionSetId(*id)).0 != spec.adds[i].0 {
                         return Err(("added-wrong".into(), format!("added version set #{i} ({:?}) matches {got:?}, expected {:?}", spec.adds[i], wx.matching(added_ref_ids[i]))));
                     }
                 }
@@ -587,6 +593,36 @@ fn ids(xs: &[SolvableId]) -> Vec<u32> {
     xs.iter().map(|s| s.0).collect()
 }
 
+/// Polls the inner future a limited number of times, then drops it unfinished.
+struct PollThenDrop<F> {
+    inner: Option<std::pin::Pin<Box<F>>>,
+    remaining: u32,
+}
+
+impl<F: std::future::Future> std::future::Future for PollThenDrop<F> {
+    type Output = ();
+    fn poll(mut self: std::pin::Pin<&mut Self>, cx: &mut std::task::Context<'_>) -> std::task::Poll<()> {
+        let Some(inner) = self.inner.as_mut() else {
+            return std::task::Poll::Ready(());
+        };
+        match inner.as_mut().poll(cx) {
+            std::task::Poll::Ready(_) => {
+                self.inner = None;
+                std::task::Poll::Ready(())
+            }
+            std::task::Poll::Pending => {
+                if self.remaining == 0 {
+                    self.inner = None; // dropped in flight
+                    std::task::Poll::Ready(())
+                } else {
+                    self.remaining -= 1;
+                    std::task::Poll::Pending
+                }
+            }
+        }
+    }
+}
+
 /// Perform one cache operation; compare the answer with the tables.
 async fn do_op(cache: &SolverCache<SimProvider>, w: &World, core: &crate::core::SimCore, op: &CacheOp, answers: &mut Vec<String>) -> Option<(String, String)> {
     match op {
@@ -652,6 +688,15 @@ async fn do_op(cache: &SolverCache<SimProvider>, w: &World, core: &crate::core::
             }
             Err(_) => cancelled_ok(core),
         },
+        CacheOp::AbandonCandidates(n, polls) => {
+            PollThenDrop {
+                inner: Some(Box::pin(cache.get_or_cache_candidates(NameId(*n)))),
+                remaining: *polls,
+            }
+            .await;
+            answers.push("abandoned".into());
+            None
+        }
         CacheOp::Available(s) => {
             let got = cache.are_dependencies_available_for(SolvableId(*s));
             answers.push(format!("{got}"));
@@ -739,6 +784,7 @@ impl Property for C20 {
         let mut params = base;
         params.p_favored = 6;
         params.hint_weights = [2, 3, 3, 4];
+        params.p_big_package = 2;
         let mut wr = Rng::stream(seed, "world");
         let (w, _) = gen_world(&mut wr, &params, 1);
         let mut r = Rng::stream(seed, "clients");
@@ -752,7 +798,8 @@ impl Property for C20 {
             let n_ops = r.range(1, 8);
             let mut ops = Vec::new();
             for _ in 0..n_ops {
-                let op = match r.below(9) {
+                let op = match r.below(10) {
+                    9 => names.first().map(|_| CacheOp::AbandonCandidates(*r.pick(&names), r.below(3) as u32)),
                     0 => names.first().map(|_| CacheOp::Candidates(*r.pick(&names))),
                     1 | 2 => vss.first().map(|_| CacheOp::Matching(*r.pick(&vss))),
                     3 => vss.first().map(|_| CacheOp::NonMatching(*r.pick(&vss))),
@@ -803,7 +850,7 @@ impl Property for C20 {
         let w = &sc.world;
         // spec must refer to existing things (minimisation may remove them)
         let ok = spec.clients.iter().flatten().all(|op| match op {
-            CacheOp::Candidates(n) => w.packages.contains_key(n),
+            CacheOp::Candidates(n) | CacheOp::AbandonCandidates(n, _) => w.packages.contains_key(n),
             CacheOp::Matching(x) | CacheOp::NonMatching(x) => w.version_sets.contains_key(x),
             CacheOp::Sorted(Req::Single(x)) => w.version_sets.contains_key(x),
             CacheOp::Sorted(Req::Union(u)) => w.unions.contains_key(u),
@@ -871,7 +918,7 @@ impl Property for C20 {
             for (ci, ops) in spec.clients.iter().enumerate() {
                 let mut answers = Vec::new();
                 for op in ops {
-                    if matches!(op, CacheOp::Available(_)) {
+                    if matches!(op, CacheOp::Available(_) | CacheOp::AbandonCandidates(..)) {
                         // availability legitimately changes as more metadata arrives
                         answers.push(answers1.get(ci).and_then(|a| a.get(answers.len())).cloned().unwrap_or_default());
                         continue;
@@ -930,7 +977,8 @@ impl Property for C20 {
         match res {
             Ok(None) => {
                 v.evaluated = true;
-                if let Some(a) = duplicate_request(&fake, Kind::Cand, false) {
+                let abandons = spec.clients.iter().flatten().any(|op| matches!(op, CacheOp::AbandonCandidates(..)));
+                if let Some(a) = duplicate_request_ex(&fake, Kind::Cand, false, abandons) {
                     v.violate("dup:cand", format!("get_candidates({a}) started twice for overlapping queries"));
                 }
                 if let Some(m) = fake.cache_mismatch.first() {
